@@ -251,6 +251,12 @@ def monitor(stream, warmup=WARMUP, listeners_stay=True):
         if any(x[1] > warmup for x in before) or \
                 any(x[1] < warmup for x in after):
             bad.append(("WARMUP not when the run reaches the warm-up time",))
+    # ... and not skipped: an event later than the warm-up time is only
+    # executed after the notification
+    if not wu and listeners_stay and any(
+            x[0] == "EXEC" and x[1] > warmup for x in stream):
+        bad.append(("WARMUP never notified although the run passed the "
+                    "warm-up time",))
     # END_REPLICATION at most once and last
     if names.count("END_REPLICATION") > 1:
         bad.append(("END_REPLICATION more than once",))
